@@ -15,13 +15,19 @@
 (*                  cells; gc += 1 = g1; g0 + 1 = g1 ? done : again };      *)
 (*                count = 0 ? CAS gc g1->LOCK (ok -> Locked, else loop)     *)
 (*                          : Unlocked                                      *)
+(*   borrowed_indices()  the observer: the same snapshot loop, WITHOUT the  *)
+(*                locking CAS - it increments gc although the set is        *)
+(*                unchanged (op "obs")                                      *)
+(* LockRetries: does lock() go back to the snapshot when its CAS fails      *)
+(* (TRUE, the loop above) or give up and report Unlocked (FALSE)?           *)
+(* EXTRACTED from the atomic-level records like the orderings.              *)
 (* Orderings are EXTRACTED from the running code (checks/C09.py).           *)
 (* Ops of a program: "acq", "rel" (oldest held index, Default), "rell"      *)
-(* (oldest held index, LockIfLastIndex).                                    *)
+(* (oldest held index, LockIfLastIndex), "obs" (borrowed_indices).          *)
 (***************************************************************************)
 EXTENDS Naturals, Sequences, FiniteSets, TLC
 
-CONSTANTS Cap, Prog, Ord
+CONSTANTS Cap, Prog, Ord, LockRetries
 
 OrdLabels == {"gc_ld", "acq_s", "acq_f", "inc", "full_s", "full_f", "rel_s", "rel_f", "il_ld", "cnt_ld", "lock_s", "lock_f"}
 LOCK == 999
@@ -39,10 +45,12 @@ VARIABLES pc, ip, cur, scan, idx, cnt, g0, mode,
           results,      \* [t -> sequence of results: <<"ok", i>>, <<"full">>, <<"locked">>, <<"rel", "Locked"|"Unlocked">>]
           fullSeen,     \* ghost: an in-flight acquire has seen a moment at which every cell was taken
           lockedAt,     \* ghost: number of acquires started (over all threads) when gc became LOCK, -1 before
-          started       \* ghost: [t -> ordinal of the acquire in flight / last started], counter in `nstart`
+          started,      \* ghost: [t -> ordinal of the acquire in flight / last started], counter in `nstart`
+          otherSeen,    \* ghost: [t -> since t's lock-if-last release emptied its cell, some OTHER index was taken at some moment]
+          badUnlock     \* ghost: a lock-if-last release returned Unlocked although no other index was taken at any moment of it
 VARIABLE nstart
 
-lvars == <<pc, ip, cur, scan, idx, cnt, g0, mode, holds, results, fullSeen, lockedAt, started, nstart>>
+lvars == <<pc, ip, cur, scan, idx, cnt, g0, mode, holds, results, fullSeen, lockedAt, started, nstart, otherSeen, badUnlock>>
 vars == <<mem, tv, acqv, relv, sc, lvars>>
 
 Init ==
@@ -53,6 +61,7 @@ Init ==
     /\ holds = [t \in Thr |-> <<>>] /\ results = [t \in Thr |-> <<>>]
     /\ fullSeen = [t \in Thr |-> FALSE] /\ lockedAt = 0 - 1
     /\ started = [t \in Thr |-> 0] /\ nstart = 0
+    /\ otherSeen = [t \in Thr |-> FALSE] /\ badUnlock = FALSE
 
 Set(f, t, x) == [f EXCEPT ![t] = x]
 Goto(t, l) == pc' = Set(pc, t, l)
@@ -61,9 +70,20 @@ Ret(t, r) == /\ results' = Set(results, t, Append(results[t], r))
 \* an index counts as taken from the moment an acquire has claimed its cell until the release of it has RETURNED
 \* (a release in flight may linearize after an overlapping acquire that reports OutOfIndices)
 ReleasePhase == {"r_cell", "r_inc", "l_il", "l_gc", "l_cnt", "l_inc", "l_dec", "l_cas"}
-AllTakenNow(pcv, holdsv, idxv) ==
-    \A i \in Slots : \/ (\E t \in Thr : \E k \in DOMAIN holdsv[t] : holdsv[t][k] = i)
-                      \/ (\E u \in Thr : pcv[u] \in ReleasePhase \cup {"a_inc"} /\ idxv[u] = i)
+\* (an observer runs through the l_* labels too, but its idx is meaningless: mode = "obs")
+TakenBy(i, u, pcv, holdsv, idxv, modev) ==
+    \/ \E k \in DOMAIN holdsv[u] : holdsv[u][k] = i
+    \/ pcv[u] = "a_inc" /\ idxv[u] = i
+    \/ pcv[u] \in ReleasePhase /\ modev[u] # "obs" /\ idxv[u] = i
+AllTakenNow(pcv, holdsv, idxv, modev) ==
+    \A i \in Slots : \E u \in Thr : TakenBy(i, u, pcv, holdsv, idxv, modev)
+\* the window of a lock-if-last release in which "is anything else taken?" is judged: from the moment its own cell is empty
+LockWindow == {"r_inc", "l_il", "l_gc", "l_cnt", "l_inc", "l_dec", "l_cas"}
+\* some index is taken by somebody - not counting the index that the lock-if-last release of t itself is giving back
+OtherTakenNow(t, pcv, holdsv, idxv, modev) ==
+    \E i \in Slots :
+       \/ \E k \in DOMAIN holdsv[t] : holdsv[t][k] = i
+       \/ \E w \in Thr \ {t} : TakenBy(i, w, pcv, holdsv, idxv, modev)
 
 \* ---------------------------------------------------------------- start of an operation
 Start(t) ==
@@ -74,6 +94,10 @@ Start(t) ==
        THEN /\ Goto(t, "a_gc")
             /\ nstart' = nstart + 1 /\ started' = Set(started, t, nstart + 1)
             /\ UNCHANGED <<ip, cur, scan, idx, cnt, g0, mode, holds, results, lockedAt>>
+       ELSE IF op = "obs"
+       THEN /\ mode' = Set(mode, t, "obs")
+            /\ Goto(t, "l_gc")
+            /\ UNCHANGED <<ip, cur, scan, idx, cnt, g0, holds, results, lockedAt, started, nstart>>
        ELSE IF holds[t] = <<>>
        THEN /\ ip' = Set(ip, t, ip[t] + 1)      \* nothing to release: skip
             /\ UNCHANGED <<pc, cur, scan, idx, cnt, g0, mode, holds, results, lockedAt, started, nstart>>
@@ -161,11 +185,12 @@ LGc(t) ==           \* borrowed_indices_and_generation_counter: load gc
     /\ \E i \in Readable(t, GC, Ord.gc_ld) :
           /\ Load(t, GC, Ord.gc_ld, i)
           /\ IF ValAt(GC, i) = LOCK
-             THEN \* SetState{LOCK, 0}: lock() then CASes LOCK -> LOCK
-                  /\ g0' = Set(g0, t, LOCK) /\ cnt' = Set(cnt, t, 0) /\ Goto(t, "l_cas") /\ UNCHANGED scan
+             THEN \* SetState{LOCK, 0}: lock() then CASes LOCK -> LOCK; the observer reports 0
+                  /\ g0' = Set(g0, t, LOCK) /\ cnt' = Set(cnt, t, 0) /\ UNCHANGED scan
+                  /\ IF mode[t] = "obs" THEN Ret(t, <<"obs", 0>>) ELSE Goto(t, "l_cas") /\ UNCHANGED <<ip, results>>
              ELSE /\ g0' = Set(g0, t, ValAt(GC, i)) /\ cnt' = Set(cnt, t, 0) /\ scan' = Set(scan, t, 0)
-                  /\ Goto(t, "l_cnt")
-    /\ UNCHANGED <<ip, cur, idx, mode, holds, results, lockedAt, started, nstart>>
+                  /\ Goto(t, "l_cnt") /\ UNCHANGED <<ip, results>>
+    /\ UNCHANGED <<cur, idx, mode, holds, lockedAt, started, nstart>>
 
 LCnt(t) ==
     /\ pc[t] = "l_cnt"
@@ -188,9 +213,10 @@ LInc(t) ==
                ELSE Goto(t, "l_gc") /\ UNCHANGED g0
     /\ UNCHANGED <<ip, cur, scan, idx, cnt, mode, holds, results, lockedAt, started, nstart>>
 
-LDecide(t) ==       \* local: count = 0 ? try to lock : Unlocked
+LDecide(t) ==       \* local: count = 0 ? try to lock : Unlocked; the observer returns the count
     /\ pc[t] = "l_dec" /\ MemSkip
-    /\ IF cnt[t] = 0 THEN Goto(t, "l_cas") /\ UNCHANGED <<ip, results>> ELSE Ret(t, <<"rel", "Unlocked">>)
+    /\ IF mode[t] = "obs" THEN Ret(t, <<"obs", cnt[t]>>)
+       ELSE IF cnt[t] = 0 THEN Goto(t, "l_cas") /\ UNCHANGED <<ip, results>> ELSE Ret(t, <<"rel", "Unlocked">>)
     /\ UNCHANGED <<cur, scan, idx, cnt, g0, mode, holds, lockedAt, started, nstart>>
 
 LCas(t) ==
@@ -200,7 +226,10 @@ LCas(t) ==
           /\ IF CasOk(GC, g0[t], i)
              THEN /\ Ret(t, <<"rel", "Locked">>)
                   /\ lockedAt' = IF lockedAt < 0 THEN nstart ELSE lockedAt
-             ELSE Goto(t, "l_gc") /\ UNCHANGED <<ip, results, lockedAt>>
+             ELSE IF LockRetries THEN Goto(t, "l_gc") /\ UNCHANGED <<ip, results, lockedAt>>
+             ELSE \* lock() without the retry: gives up (already locked by somebody else -> Locked, else Unlocked)
+                  /\ Ret(t, <<"rel", IF ValAt(GC, i) = LOCK THEN "Locked" ELSE "Unlocked">>)
+                  /\ UNCHANGED lockedAt
     /\ UNCHANGED <<cur, scan, idx, cnt, g0, mode, holds, started, nstart>>
 
 Step(t) == \/ Start(t) \/ AGc(t) \/ ACell(t) \/ AInc(t) \/ AFull(t)
@@ -208,10 +237,20 @@ Step(t) == \/ Start(t) \/ AGc(t) \/ ACell(t) \/ AInc(t) \/ AFull(t)
 
 \* ghost monitor: an in-flight acquire remembers whether every cell was ever taken during the call
 InFlightAcq(t) == pc[t] \in {"a_gc", "a_cell", "a_inc", "a_full"}
-Monitor == fullSeen' = [u \in Thr |->
-                          IF ~InFlightAcq(u) /\ pc'[u] = "a_gc" THEN AllTakenNow(pc', holds', idx')
-                          ELSE IF InFlightAcq(u) THEN fullSeen[u] \/ AllTakenNow(pc', holds', idx')
+InLockWindow(u) == mode[u] = "rell" /\ pc[u] \in LockWindow
+Monitor ==
+    /\ fullSeen' = [u \in Thr |->
+                          IF ~InFlightAcq(u) /\ pc'[u] = "a_gc" THEN AllTakenNow(pc', holds', idx', mode')
+                          ELSE IF InFlightAcq(u) THEN fullSeen[u] \/ AllTakenNow(pc', holds', idx', mode')
                           ELSE fullSeen[u]]
+    \* ghost of a lock-if-last release: was any OTHER index taken at some moment since its own cell became empty?
+    /\ otherSeen' = [u \in Thr |->
+                          IF mode'[u] = "rell" /\ pc'[u] \in LockWindow
+                          THEN (InLockWindow(u) /\ otherSeen[u]) \/ OtherTakenNow(u, pc', holds', idx', mode')
+                          ELSE FALSE]
+    /\ badUnlock' = (badUnlock \/ \E u \in Thr : /\ InLockWindow(u) /\ pc'[u] = "idle"
+                                                    /\ results'[u][Len(results'[u])] = <<"rel", "Unlocked">>
+                                                    /\ ~otherSeen[u])
 Next == (\E t \in Thr : Step(t)) /\ Monitor
 Spec == Init /\ [][Next]_vars
 
@@ -235,4 +274,9 @@ NoAcquireAfterLock ==
 LastWasFullAcquire(t) == /\ pc[t] = "idle" /\ ip[t] > 1 /\ Prog[t][ip[t] - 1] = "acq"
                          /\ Len(results[t]) > 0 /\ results[t][Len(results[t])] = <<"full">>
 FullOnlyWhenFull == \A t \in Thr : LastWasFullAcquire(t) => fullSeen[t]
+\* "after the last index is released with the lock-if-last option no acquire ever succeeds again": a lock-if-last release
+\* may report Unlocked only if some other index was taken (held, claimed by an acquire in flight, or being released by a
+\* call that has not returned) at some moment after its own cell became empty - observers and other lock attempts, which
+\* change the generation counter but not the set, are no excuse
+UnlockedOnlyWhenOthers == ~badUnlock
 =============================================================================
